@@ -416,14 +416,22 @@ func windingOrderIsCorrect(ring [][2]float64, shouldBeClockwise bool) bool {
 	return wo.IsClockwise() && shouldBeClockwise || wo.IsCounterClockwise() && !shouldBeClockwise || wo.IsColinear()
 }
 
-// TODO: rewrite by using intgeoms for as long as possible
-func isHitMultiple(hitMultiple map[intgeom.Point][]int, vertex [2]float64, ringIdx int) bool {
-	intVertex := intgeom.FromGeomPoint(vertex)
-	return slices.Contains(hitMultiple[intVertex], ringIdx) || // exact match
-		slices.Contains(hitMultiple[intgeom.Point{intVertex[xAx] + 1, intVertex[yAx]}], ringIdx) || // fuzzy search
-		slices.Contains(hitMultiple[intgeom.Point{intVertex[xAx] - 1, intVertex[yAx]}], ringIdx) ||
-		slices.Contains(hitMultiple[intgeom.Point{intVertex[xAx], intVertex[yAx] + 1}], ringIdx) ||
-		slices.Contains(hitMultiple[intgeom.Point{intVertex[xAx], intVertex[yAx] - 1}], ringIdx)
+// hitMultipleVertices returns the vertices (as emitted by the point index) that the given ring goes through more than once.
+// The lookup is done on the emitted float points themselves, because converting a float point back to an intgeom.Point
+// is not exact (for large ordinates the round trip is off by more than one unit).
+func hitMultipleVertices(hitMultiple map[intgeom.Point][]int, ringIdx int) map[[2]float64]struct{} {
+	vertices := make(map[[2]float64]struct{}, len(hitMultiple))
+	for intVertex, ringIdxs := range hitMultiple {
+		if slices.Contains(ringIdxs, ringIdx) {
+			vertices[intVertex.ToGeomPoint()] = struct{}{}
+		}
+	}
+	return vertices
+}
+
+func isHitMultiple(hitMultipleVertices map[[2]float64]struct{}, vertex [2]float64) bool {
+	_, isHit := hitMultipleVertices[vertex]
+	return isHit
 }
 
 // split ring into multiple rings at any point where the ring goes through the point more than once
@@ -435,8 +443,9 @@ func splitRing(ring [][2]float64, isOuter bool, hitMultiple map[intgeom.Point][]
 	stack.Set(partialRingIdx, [][2]float64{})
 	completeRings := make(map[int][][2]float64)
 	checkRing := append(ring, ring[0])
+	multiHitVertices := hitMultipleVertices(hitMultiple, ringIdx)
 	for vertexIdx, vertex := range checkRing {
-		if vertexIdx == 0 || !isHitMultiple(hitMultiple, vertex, ringIdx) {
+		if vertexIdx == 0 || !isHitMultiple(multiHitVertices, vertex) {
 			if partialRing, inited := stack.Get(partialRingIdx); !inited {
 				stack.Set(partialRingIdx, make([][2]float64, 0, len(checkRing)))
 			} else {
